@@ -799,6 +799,18 @@ class Interp:
         m = rd(g.ref)
         if not isinstance(m, MutexV):
             raise ModelError('guard of non-mutex %r' % (m,))
+        if getattr(g, 'mode', 'x') == 'r':
+            # a read guard: drop one share of this thread; a panicking reader does not poison an RwLock
+            holders = dict(m.held[1]) if isinstance(m.held, tuple) else {}
+            n = holders.get(self.thread, 0) - 1
+            if n > 0:
+                holders[self.thread] = n
+            else:
+                holders.pop(self.thread, None)
+            wr(g.ref, MutexV(m.data, ('r', tuple(sorted(holders.items()))) if holders else None, m.poisoned))
+            if self.sched is not None:
+                self.sched.released(g.ref)
+            return
         wr(g.ref, MutexV(m.data, None, m.poisoned or bool(cleanup)))
         if self.sched is not None:
             self.sched.released(g.ref)
